@@ -92,9 +92,14 @@ def run_fit(p):
         model.fit((X0, y0), (Xv, yv), iters=max(1, p['iters']), reg=p['reg'], verbose=False, early_stop_rfm=False,
                   **({'total_points_to_sample': 5} if p['seed'] % 2 else {}))
     rec = AgopRec(model)
-    Ms = model.fit((X, y), (Xv, yv), iters=p['iters'], reg=p['reg'], verbose=False, center_grads=p['center'],
-                   M_batch_size=p['batch'], return_Ms=True, get_agop_best_model=True,
-                   early_stop_rfm=p['early'], return_best_params=p['return_best'])
+    import contextlib
+    import io
+    # every third fit asks for progress output (a duplicated code path in several loops); what is printed is discarded
+    talk = (p['seed'] % 3 == 0)
+    with contextlib.redirect_stdout(io.StringIO()), contextlib.redirect_stderr(io.StringIO()):
+        Ms = model.fit((X, y), (Xv, yv), iters=p['iters'], reg=p['reg'], verbose=talk, center_grads=p['center'],
+                       M_batch_size=p['batch'], return_Ms=True, get_agop_best_model=True,
+                       early_stop_rfm=p['early'], return_best_params=p['return_best'])
     return model, rec, Ms, X
 
 
